@@ -226,7 +226,7 @@ func TestC13Crash(t *testing.T) {
 		}
 		cmd.Wait()
 		// reopen what the dead process left behind
-		st, err := badgerstore.Open(badger.DefaultOptions(dbDir).WithTruncate(true).WithLogger(nil))
+		st, err := badgerstore.Open(badger.DefaultOptions(dbDir).WithTruncate(true).WithMaxCacheSize(1 << 20).WithLogger(nil))
 		if err != nil {
 			rt.Fatalf("reopen after kill (acked %d of %d): %v", acked, n, err)
 		}
@@ -711,7 +711,7 @@ func TestC13MigrationCrash(t *testing.T) {
 		nNonces := rapid.SampledFrom([]int{0, 3, 150, 300}).Draw(rt, "nonces")
 		version := rapid.SampledFrom([]int{0, 1, 1}).Draw(rt, "version")
 		// the child uses badger.DefaultOptions; populate with the same options so that table formats agree
-		st, err := badgerstore.Open(badger.DefaultOptions(db).WithTruncate(true).WithLogger(nil).WithSyncWrites(false))
+		st, err := badgerstore.Open(badger.DefaultOptions(db).WithTruncate(true).WithMaxCacheSize(1 << 20).WithLogger(nil).WithSyncWrites(false))
 		if err != nil {
 			rt.Fatalf("open: %v", err)
 		}
@@ -785,7 +785,7 @@ func TestC13MigrationCrash(t *testing.T) {
 		default:
 			rt.Fatalf("database version is %d after a kill during the migration from %d", v, version)
 		}
-		st2, err := badgerstore.Open(badger.DefaultOptions(db).WithTruncate(true).WithLogger(nil))
+		st2, err := badgerstore.Open(badger.DefaultOptions(db).WithTruncate(true).WithMaxCacheSize(1 << 20).WithLogger(nil))
 		if err != nil {
 			rt.Fatalf("Open after the kill: %v", err)
 		}
@@ -810,7 +810,7 @@ func nNoncesIn(m map[string]string) int {
 }
 
 func dumpKeysDefault(rt *rapid.T, dir string) map[string]string {
-	db, err := badger.Open(badger.DefaultOptions(dir).WithTruncate(true).WithLogger(nil))
+	db, err := badger.Open(badger.DefaultOptions(dir).WithTruncate(true).WithMaxCacheSize(1 << 20).WithLogger(nil))
 	if err != nil {
 		rt.Fatalf("raw open: %v", err)
 	}
@@ -829,7 +829,7 @@ func dumpKeysDefault(rt *rapid.T, dir string) map[string]string {
 }
 
 func setRawVersionDefault(rt *rapid.T, dir string, version int) {
-	db, err := badger.Open(badger.DefaultOptions(dir).WithTruncate(true).WithLogger(nil))
+	db, err := badger.Open(badger.DefaultOptions(dir).WithTruncate(true).WithMaxCacheSize(1 << 20).WithLogger(nil))
 	if err != nil {
 		rt.Fatalf("raw open: %v", err)
 	}
